@@ -18,7 +18,7 @@ RULE = ('(a) schedules: 2-3 worker threads each compile and evaluate a distinct,
         'call a function object obtained earlier / gc.collect, against the function re-wrapped with lru_cache(maxsize=8) '
         '(same body) and deterministic runs against the real capacity of 500 with 1,700 distinct filters (one of them kept hot); after every '
         'step rows == reference. Non-trivial = (a) the schedule preempts a thread inside the compile path, (b) the '
-        'history crossed the cache capacity; distinct by schedule / history.')
+        'history crossed the cache capacity; distinct by schedule / history. Histories also contain refused filters (parse errors, and-chains of 250 operands whose generated code does not compile, unknown zones, 20 kB unterminated strings) between the compilations.')
 ASSUMPTIONS = ['interleavings are at source-line granularity inside hszinc\'s Python code; C code (lru_cache, dict operations) '
                'is atomic under the GIL, as in production CPython',
                'the small-capacity runs replace the one lru_cache-wrapped function of hszinc.grid_filter (found by shape: '
@@ -166,6 +166,11 @@ def measure(nthreads, salt):
 
 # ---------------------------------------------------------------- histories
 
+BAD_FILTERS = ['x ==', 'a and', '(a', 'a == "unterminated', 'a b', ' and '.join('t%d' % i for i in range(250)),
+               ' or '.join('n == %d' % i for i in range(400)), 'n == 2020-01-01T00:00:00+00:00 Nowhere', 'n == hex("zz")', 'a->',
+               'not ' * 3 + 'a', ' and '.join('(t%d or u%d)' % (i, i) for i in range(120)), 'n < "' + 'x' * 20000, '(' * 60 + 'a' + ')' * 59]
+
+
 def history_check(case):
     """case = {'kind': 'history', 'capacity': 8|500, 'pool': n, 'ops': [[op, i]...]}"""
     import hszinc.grid_filter as gf
@@ -186,6 +191,9 @@ def history_check(case):
         clear_lru_caches(gf)
         cap = getattr(gf, 'FILTER_CACHE_LRU_SIZE', None) or 500
     get_function = getattr(gf, 'filter_function', None)
+    import sys
+    hook = sys.unraisablehook
+    sys.unraisablehook = lambda *a: None     # (the library's __del__ of a half-built wrapper complains on stderr)
     try:
         pool = fresh_filters(case['pool'], case.get('salt', 0))
         held = {}
@@ -215,6 +223,15 @@ def history_check(case):
                     row = dict(g[k])
                     row['r'] = hszinc.Ref('id%d' % retarget[0])
                     g[k] = row
+                continue
+            if op == 'bad':
+                # a filter that is refused - at parse time, or only when the generated code is compiled or run; whatever
+                # it raises is swallowed here (C11 / C12 judge that), what matters is what it leaves behind
+                try:
+                    g.filter(BAD_FILTERS[i % len(BAD_FILTERS)])
+                except BaseException as e:  # noqa
+                    if isinstance(e, (KeyboardInterrupt, SystemExit)):
+                        raise
                 continue
             i = i % len(pool)
             text, pred = pool[i]
@@ -247,6 +264,7 @@ def history_check(case):
                     step, op, i, text, got, want), (op,))
         return len(seen) > cap
     finally:
+        sys.unraisablehook = hook
         if replaced is not None:
             setattr(gf, replaced[0], replaced[1])
         clear_lru_caches(gf)
@@ -260,6 +278,7 @@ def plan(tier, seed, excl):
     t += [('history-small', {'shard': i, 'n': 200 if q else 2500}) for i in range(8)]
     t += [('history-real', {'variant': i}) for i in range(2 if q else 6)]
     t.append(('history-targets', {}))
+    t.append(('history-after-bad', {}))
     return t
 
 
@@ -306,7 +325,8 @@ def run(part, args, env):
         op = st.one_of(st.tuples(st.just('eval'), st.integers(0, 29)), st.tuples(st.just('eval'), st.integers(0, 29)),
                        st.tuples(st.just('eval'), st.integers(0, 29)), st.tuples(st.just('eval'), st.integers(0, 11)),
                        st.tuples(st.just('hold'), st.integers(0, 29)), st.tuples(st.just('call_old'), st.integers(0, 29)),
-                       st.tuples(st.just('gc'), st.just(0)), st.tuples(st.just('mutate'), st.integers(0, 11)), st.tuples(st.just('retarget'), st.integers(0, 11)))
+                       st.tuples(st.just('gc'), st.just(0)), st.tuples(st.just('mutate'), st.integers(0, 11)), st.tuples(st.just('retarget'), st.integers(0, 11)),
+                       st.tuples(st.just('bad'), st.integers(0, len(BAD_FILTERS) - 1)))
         strat = st.lists(op, min_size=25, max_size=80).map(lambda ops: {'kind': 'history', 'capacity': 8, 'pool': 30,
                                                                        'ops': [list(o) for o in ops]})
 
@@ -316,6 +336,23 @@ def run(part, args, env):
             if acc.want_sample() and len(case['ops']) < 25:
                 acc.sample(case)
         run_hypothesis(acc, body, strat, args['n'], shard_seed(env['seed'], PROPERTY, 'h', args['shard']))
+    elif part == 'history-after-bad':
+        # a refused filter (parse error, or generated code that does not compile) between compilations: the filters
+        # compiled before and after it keep answering for themselves
+        n = 0
+        for k in range(len(BAD_FILTERS)):
+            for reps in (1, 2, 3):
+                ops = [['eval', j] for j in range(6)] + [['bad', k]] * reps + [['eval', 6], ['eval', 7], ['eval', 6], ['eval', 7]] + \
+                      [['eval', j] for j in range(8)] + [['bad', k], ['eval', 8], ['bad', k], ['eval', 9], ['eval', 8], ['eval', 9]] + \
+                      [['hold', 10], ['bad', k], ['eval', 11], ['call_old', 10], ['eval', 11], ['eval', 10]] + [['eval', j] for j in range(12)]
+                case = {'kind': 'history', 'capacity': 500, 'pool': 40, 'salt': k, 'ops': ops}
+                n += 1
+                try:
+                    history_check(case)
+                except Violation as v:
+                    acc.violation(v)
+        acc.bulk(n, n, labels=('history-after-bad',))
+        acc.sample({'kind': 'history', 'ops': [['eval', 0], ['bad', 5], ['eval', 6], ['eval', 7], ['eval', 6]]})
     elif part == 'history-targets':
         # a->b filters around replacement of the row they dereference: all rows point at one target, the target is replaced
         # (same id, new values) between evaluations, for every target and several path filters (pool indices 3, 13, 23 ...)
